@@ -485,7 +485,9 @@ fn random_tlv_section(rng: &mut Rng, budget: usize) -> Vec<u8> {
 pub fn halves_block(fam: u8, src: usize, dst: usize, rng: &mut Rng) -> Vec<u8> {
     let half = match fam { 1 => 4, 2 => 16, 3 => 108, _ => 0 };
     let mut make = |class: usize, rng: &mut Rng| -> Vec<u8> {
-        match class % 4 {
+        match class % 5 {
+            // sparse: a name, a long run of zeros, more bytes, zeros, a last byte
+            4 => { let mut v = vec![0u8; half]; for (k, b) in v.iter_mut().enumerate() { if k < 3 || (half > 44 && (40..43).contains(&k)) || k + 1 == half || (half <= 16 && k == half / 2) { *b = 0x30 + (k % 40) as u8; } } v }
             0 => vec![0u8; half],
             1 => vec![0xffu8; half],
             2 => { let mut v = vec![0u8; half]; let name = b"/run/x.sock"; let k = name.len().min(half.saturating_sub(1)); v[..k].copy_from_slice(&name[..k]); if fam != 3 { v[half - 1] = 1; } v }
@@ -504,7 +506,7 @@ pub fn halves_block(fam: u8, src: usize, dst: usize, rng: &mut Rng) -> Vec<u8> {
 
 fn address_block(fam: u8, rng: &mut Rng) -> Vec<u8> {
     if fam != 0 && rng.chance(1, 6) {
-        let (a, b) = (rng.below(4) as usize, rng.below(4) as usize);
+        let (a, b) = (rng.below(5) as usize, rng.below(5) as usize);
         return halves_block(fam, a, b, rng);
     }
     let n = family_size(fam);
@@ -559,9 +561,9 @@ fn address_block(fam: u8, rng: &mut Rng) -> Vec<u8> {
 /// The i-th header of the halves grid (see `halves_block`).
 pub fn halves_header(i: usize, rng: &mut Rng) -> Vec<u8> {
     let fam = 1 + (i % 3) as u8;
-    let (src, dst) = ((i / 3) % 4, (i / 12) % 4);
+    let (src, dst) = ((i / 3) % 5, (i / 15) % 5);
     let mut body = halves_block(fam, src, dst, rng);
-    if (i / 48) % 2 == 0 {
+    if (i / 75) % 2 == 0 {
         body.extend_from_slice(&[4, 0, 2, 7, 7]);
     }
     v2_header(0x20 | (i % 2) as u8, (fam << 4) | (i % 3) as u8, body.len() as u16, &body)
